@@ -161,6 +161,7 @@ func runParserShard(prop string, l Layer, cfgs []PCfg, mkOracle func() *Oracle, 
 		nontrivial := int64(0)
 		l.Inputs.Each(func(s []byte) {
 			h.Input = s
+			st.SetNote(fmt.Sprintf("%s %s input %q (deviation bound %d)", pc.Kind, pc.JSON, s, l.Bound))
 			before := len(h.Outcomes)
 			ex, pts := engine.Explore(l.Bound, func(c *engine.Chooser) {
 				h.C = c
